@@ -33,14 +33,19 @@ try:
     shutil.copy(os.path.join(deliver, "demo.rs"), dest)
     feats = ""
     mf = re.search(r"--features[ =]([A-Za-z0-9_,-]+)", how)
-    if mf: feats = f" --features {mf.group(1)}"
+    if mf:
+        # the how-to may also quote the AVX lib-test command: its feature / flags only apply to demos living in poulpy-cpu-avx
+        fl = [f for f in mf.group(1).split(",") if crate == "poulpy-cpu-avx" or "enable-avx" not in f]
+        if fl: feats = " --features " + ",".join(fl)
+    if crate == "poulpy-cpu-avx" and "enable-avx" not in feats:
+        feats = " --features enable-avx"
     if kind == "tests":
         demo_cmd = f"cargo test -p {crate} --test {tname} --offline{feats}"
     elif kind == "examples":
         demo_cmd = f"cargo run -p {crate} --example {tname} --offline{feats}"
     else:
         demo_cmd = f"cargo run -p {crate} --bin {tname} --offline{feats}"
-    if "RUSTFLAGS" in how and "avx2" in how:
+    if crate == "poulpy-cpu-avx":
         demo_cmd = 'RUSTFLAGS="-C target-feature=+avx2,+fma" ' + demo_cmd
     rc0, out0 = sh(demo_cmd)
     result["demo_cmd"] = demo_cmd
